@@ -25,6 +25,9 @@ theories/AllocInv.vos theories/AllocInv.vok theories/AllocInv.required_vos: theo
 theories/Htx.vo theories/Htx.glob theories/Htx.v.beautified theories/Htx.required_vo: theories/Htx.v theories/Base.vo gen/Consts.vo
 theories/Htx.vio: theories/Htx.v theories/Base.vio gen/Consts.vio
 theories/Htx.vos theories/Htx.vok theories/Htx.required_vos: theories/Htx.v theories/Base.vos gen/Consts.vos
+theories/Htx_proofs.vo theories/Htx_proofs.glob theories/Htx_proofs.v.beautified theories/Htx_proofs.required_vo: theories/Htx_proofs.v theories/Base.vo gen/Consts.vo theories/Htx.vo
+theories/Htx_proofs.vio: theories/Htx_proofs.v theories/Base.vio gen/Consts.vio theories/Htx.vio
+theories/Htx_proofs.vos theories/Htx_proofs.vok theories/Htx_proofs.required_vos: theories/Htx_proofs.v theories/Base.vos gen/Consts.vos theories/Htx.vos
 theories/Store.vo theories/Store.glob theories/Store.v.beautified theories/Store.required_vo: theories/Store.v theories/Base.vo theories/Vu64.vo theories/Hash.vo theories/KeyTypes.vo gen/Consts.vo theories/Sizing.vo theories/Alloc.vo theories/Htx.vo
 theories/Store.vio: theories/Store.v theories/Base.vio theories/Vu64.vio theories/Hash.vio theories/KeyTypes.vio gen/Consts.vio theories/Sizing.vio theories/Alloc.vio theories/Htx.vio
 theories/Store.vos theories/Store.vok theories/Store.required_vos: theories/Store.v theories/Base.vos theories/Vu64.vos theories/Hash.vos theories/KeyTypes.vos gen/Consts.vos theories/Sizing.vos theories/Alloc.vos theories/Htx.vos
@@ -40,6 +43,9 @@ theories/Layout.vos theories/Layout.vok theories/Layout.required_vos: theories/L
 theories/Spec.vo theories/Spec.glob theories/Spec.v.beautified theories/Spec.required_vo: theories/Spec.v theories/Base.vo
 theories/Spec.vio: theories/Spec.v theories/Base.vio
 theories/Spec.vos theories/Spec.vok theories/Spec.required_vos: theories/Spec.v theories/Base.vos
+theories/Refine.vo theories/Refine.glob theories/Refine.v.beautified theories/Refine.required_vo: theories/Refine.v theories/Base.vo theories/Vu64.vo theories/Hash.vo theories/KeyTypes.vo gen/Consts.vo theories/Sizing.vo theories/Alloc.vo theories/AllocInv.vo theories/Htx.vo theories/Htx_proofs.vo theories/Store.vo theories/Spec.vo
+theories/Refine.vio: theories/Refine.v theories/Base.vio theories/Vu64.vio theories/Hash.vio theories/KeyTypes.vio gen/Consts.vio theories/Sizing.vio theories/Alloc.vio theories/AllocInv.vio theories/Htx.vio theories/Htx_proofs.vio theories/Store.vio theories/Spec.vio
+theories/Refine.vos theories/Refine.vok theories/Refine.required_vos: theories/Refine.v theories/Base.vos theories/Vu64.vos theories/Hash.vos theories/KeyTypes.vos gen/Consts.vos theories/Sizing.vos theories/Alloc.vos theories/AllocInv.vos theories/Htx.vos theories/Htx_proofs.vos theories/Store.vos theories/Spec.vos
 theories/Bulk.vo theories/Bulk.glob theories/Bulk.v.beautified theories/Bulk.required_vo: theories/Bulk.v theories/Base.vo theories/KeyTypes.vo theories/Store.vo
 theories/Bulk.vio: theories/Bulk.v theories/Base.vio theories/KeyTypes.vio theories/Store.vio
 theories/Bulk.vos theories/Bulk.vok theories/Bulk.required_vos: theories/Bulk.v theories/Base.vos theories/KeyTypes.vos theories/Store.vos
